@@ -550,6 +550,85 @@ pub fn run(ctx: &Ctx) -> i32 {
         }
         ctx.put("interleaving_slice_builds", json!(3000));
     }
+    // letter-case twins: two lines that differ only in letter case - of the mnemonic and the registers, where
+    // it means nothing, and of a character literal, where it is another number - one after the other in one
+    // build and in two builds that follow each other on one thread
+    {
+        let mut r = Rng::for_case(ctx.seed, 0xC01_D, 0);
+        let render = |form: &Form, vals: &[i64], at: usize, ch: char, upper: bool| -> String {
+            let mut ops: Vec<String> = vec![];
+            for (i, v) in vals.iter().enumerate() {
+                let t = if i == at {
+                    match form.ops[i] {
+                        Opk::Disp { reg, .. } => format!("{}+'{}'", reg, ch),
+                        _ => format!("'{}'", ch),
+                    }
+                } else {
+                    match form.ops[i] {
+                        Opk::Reg { .. } => format!("r{}", v),
+                        Opk::Rel { .. } => {
+                            if *v + 1 >= 0 {
+                                format!("pc+{}", v + 1)
+                            } else {
+                                format!("pc-{}", -(v + 1))
+                            }
+                        }
+                        Opk::Index(ix) => ix.text().to_string(),
+                        Opk::Disp { reg, .. } => format!("{}+{}", reg, v),
+                        _ => format!("{}", v),
+                    }
+                };
+                ops.push(if upper && i != at { t.to_uppercase() } else { t });
+            }
+            let mn = if upper { form.mn.to_uppercase() } else { form.mn.to_string() };
+            format!("\t{} {}", mn, ops.join(", "))
+        };
+        let mut twins = 0u64;
+        for form in forms.iter() {
+            for at in 0..form.ops.len() {
+                if !matches!(form.ops[at], Opk::Imm { .. } | Opk::ImmCom { .. } | Opk::Addr8l { .. } | Opk::Disp { .. }) {
+                    continue;
+                }
+                for k in 0..26u8 {
+                    let (up, lo) = ((b'A' + k) as char, (b'a' + k) as char);
+                    let mut vu = form.tuple_at(r.below(form.space()));
+                    vu[at] = up as i64;
+                    let mut vl = vu.clone();
+                    vl[at] = lo as i64;
+                    if !form.legal(&vu) || !form.legal(&vl) {
+                        continue;
+                    }
+                    let first_upper = r.chance(1, 2);
+                    let (ta, tb) = if first_upper { (render(form, &vu, at, up, false), render(form, &vl, at, lo, true)) } else { (render(form, &vl, at, lo, false), render(form, &vu, at, up, true)) };
+                    let (va, vb) = if first_upper { (&vu, &vl) } else { (&vl, &vu) };
+                    // two builds, one after the other
+                    ctx.eval(2);
+                    check_line(ctx, form, va, &ta);
+                    check_line(ctx, form, vb, &tb);
+                    // one build
+                    if form.ops.iter().any(|o| matches!(o, Opk::Rel { .. })) {
+                        continue;
+                    }
+                    let src = format!("{}{}\n{}\n", header(form), tb, ta);
+                    let mut expect = vec![0u8; header_pad(form)];
+                    expect.extend(isa::words_to_bytes(&isa::encode(form, vb)));
+                    expect.extend(isa::words_to_bytes(&isa::encode(form, va)));
+                    let out = fw::build_str(&src);
+                    ctx.eval(1);
+                    twins += 1;
+                    let ok = matches!(&out, Outcome::Ok(b) if b.code == expect);
+                    if !ok {
+                        ctx.violation(
+                            format!("enc/{}/letter-case-twins-in-one-build", form.name),
+                            format!("`{}` then `{}`: expected {}, observed {}", tb.trim(), ta.trim(), fw::hex(&expect[header_pad(form)..], 16), fw::clip(&format!("{:?}", out.brief()), 120)),
+                            json!({"source": src, "twins": true, "expect_code_whole": fw::hex(&expect, 4096), "observed": out.brief()}),
+                        );
+                    }
+                }
+            }
+        }
+        ctx.put("letter_case_twin_pairs", json!(twins));
+    }
     let distinct_first: u64 = sh.first_words.iter().map(|w| w.load(Ordering::Relaxed).count_ones() as u64).sum();
     ctx.distinct_extra.store(distinct_first, Ordering::Relaxed);
     ctx.exhaustive.store(true, Ordering::Relaxed);
@@ -580,6 +659,16 @@ pub fn replay(ctx: &Ctx, case: &Value) -> i32 {
         ctx.distinct(2);
         if !matches!(&out, Outcome::Ok(b) if Some(fw::hex(&b.code, 1 << 22).as_str()) == case["expect_code"].as_str()) {
             ctx.violation("enc/replay", "the batch built as a file still deviates".to_string(), case.clone());
+        }
+        return fw::finish(ctx, "replay", &[]);
+    }
+    if case["twins"].as_bool() == Some(true) {
+        let out = fw::build_str(case["source"].as_str().unwrap_or(""));
+        ctx.eval(1);
+        ctx.distinct(1);
+        ctx.distinct(2);
+        if !matches!(&out, Outcome::Ok(b) if Some(fw::hex(&b.code, 4096).as_str()) == case["expect_code_whole"].as_str()) {
+            ctx.violation("enc/replay", "the two lines in one build still deviate".to_string(), case.clone());
         }
         return fw::finish(ctx, "replay", &[]);
     }
